@@ -19,6 +19,11 @@ open Fatchoy.Varint
 /-! ### the regenerated facts satisfy the side-conditions -/
 
 theorem C07_valid : Valid params := by decide
+/-- … for every word size and NaN convention the op stream can announce (`arch bits=32|64
+nan=quiet|canon`): `archParams` is what the model driver then answers under, so the theorems below —
+all for any `Valid P` — hold of the model compared with an amd64 and with a GOARCH=386 build alike -/
+theorem C07_valid_arch : Valid (archParams 32 true) ∧ Valid (archParams 32 false) ∧
+    Valid (archParams 64 true) ∧ Valid (archParams 64 false) := by decide
 theorem C07_valid_setbody : ValidSetBody tables := by
   unfold ValidSetBody; repeat' apply And.intro
   all_goals rfl
@@ -35,9 +40,11 @@ theorem C07_valid_codec : Consistent params C01.params := by decide
 
 /-- integers of every width and signedness (and bool): `BodyToInt` returns the int64 with the same
 value; the only kinds that can exceed int64, `uint`/`uint64` ≥ 2^63, come back modulo 2^64 (the same
-64 bits), which is what `BitVec.ofInt 64 n` says uniformly. -/
+64 bits), which is what `BitVec.ofInt 64 n` says uniformly. Word-size generic: an `int`/`uint` is
+carried as the sign/zero extension of its 32- or 64-bit value (`GoVal.inWord P.intSize`, see
+`C07_word_values`), `intValue` is its mathematical value, and no hypothesis on `P.intSize` is needed. -/
 theorem C07_readback_int (P : Params) (v : GoVal) (n : Int) (h : intValue v = some n) :
-    ∃ r, setBody v = .ok (.i64 r) ∧ bodyToInt P (.i64 r) = .ok r ∧ r = BitVec.ofInt 64 n ∧
+    ∃ r, setBody P v = .ok (.i64 r) ∧ bodyToInt P (.i64 r) = .ok r ∧ r = BitVec.ofInt 64 n ∧
       (-(2 ^ 63 : Int) ≤ n ∧ n < 2 ^ 63 → r.toInt = n) := by
   have key : ∀ r : BitVec 64, r = BitVec.ofInt 64 n →
       (-(2 ^ 63 : Int) ≤ n ∧ n < 2 ^ 63 → r.toInt = n) := by
@@ -81,33 +88,60 @@ theorem C07_readback_int (P : Params) (v : GoVal) (n : Int) (h : intValue v = so
       rw [← h, ← toInt_setWidth64_of_lt x (by omega), BitVec.ofInt_toInt]
     exact ⟨_, rfl, rfl, e, key _ e⟩
 
+/-- on a build with `bits`-bit words (32 or 64) every `int` in [-2^(bits-1), 2^(bits-1)) and every
+`uint` below 2^bits is a value of the model (`inWord`), and reads back as exactly that number — for
+both word sizes -/
+theorem C07_word_values (P : Params) (hv : Valid P) (x : Int) (u : Nat)
+    (hx : -(2 ^ (P.intSize - 1) : Int) ≤ x ∧ x < 2 ^ (P.intSize - 1)) (hu : u < 2 ^ P.intSize) :
+    (GoVal.int (BitVec.ofInt 64 x)).inWord P.intSize = true ∧ intValue (.int (BitVec.ofInt 64 x)) = some x ∧
+    (GoVal.uint (BitVec.ofNat 64 u)).inWord P.intSize = true ∧ intValue (.uint (BitVec.ofNat 64 u)) = some (u : Int) := by
+  have hw : P.intSize = 32 ∨ P.intSize = 64 := hv.2.2.1
+  have hx64 : -(2 ^ 63 : Int) ≤ x ∧ x < 2 ^ 63 := by
+    rcases hw with h | h <;> rw [h] at hx <;> simp at hx <;> omega
+  have hu64 : u < 2 ^ 64 := by
+    rcases hw with h | h <;> rw [h] at hu <;> simp at hu <;> omega
+  have hxi : (BitVec.ofInt 64 x).toInt = x := by
+    rw [BitVec.toInt_ofInt, Int.bmod_eq_of_le] <;> omega
+  have hun : (BitVec.ofNat 64 u).toNat = u := by
+    rw [BitVec.toNat_ofNat]; exact Nat.mod_eq_of_lt hu64
+  refine ⟨?_, ?_, ?_, ?_⟩
+  · simp only [GoVal.inWord, hxi, decide_eq_true_eq]; exact hx
+  · simp only [intValue, hxi]
+  · simp only [GoVal.inWord, hun, decide_eq_true_eq]; exact hu
+  · simp only [intValue, hun]
+
 /-- floats: a float64 reads back bit for bit (NaN payloads, ±0, ±Inf included); a float32 reads back
-as its widening (`widen`, exact for every non-NaN value: `C07_widen_exact`) -/
-theorem C07_readback_float (bits : BitVec 64) (bits32 : BitVec 32) :
-    (setBody (.f64 bits) = .ok (.f64 bits) ∧ bodyToFloat (.f64 bits) = .ok bits) ∧
-    (setBody (.f32 bits32) = .ok (.f64 (widen bits32)) ∧ bodyToFloat (.f64 (widen bits32)) = .ok (widen bits32)) :=
+as its widening (`widenOn P.canonNaN`, exact for every non-NaN value under either NaN convention:
+`C07_widen_exact`) -/
+theorem C07_readback_float (P : Params) (bits : BitVec 64) (bits32 : BitVec 32) :
+    (setBody P (.f64 bits) = .ok (.f64 bits) ∧ bodyToFloat P (.f64 bits) = .ok bits) ∧
+    (setBody P (.f32 bits32) = .ok (.f64 (widenOn P.canonNaN bits32)) ∧
+      bodyToFloat P (.f64 (widenOn P.canonNaN bits32)) = .ok (widenOn P.canonNaN bits32)) :=
   ⟨⟨rfl, rfl⟩, ⟨rfl, rfl⟩⟩
 
-/-- the widening is exact: a finite float32 (normal, subnormal, ±0) becomes the float64 with the same
-sign and exactly the same magnitude (`f32Scaled`/`f64Scaled`: |value|·2^1074 as a natural number);
-±Inf stays ±Inf and a NaN stays a NaN with its sign -/
-theorem C07_widen_exact (b : BitVec 32) :
-    (∀ v, f32Scaled b = some v → f64Scaled (widen b) = some v) ∧
+/-- the widening is exact under either NaN convention (`canon`: what the build does with a NaN —
+amd64/arm64 keep sign and payload and set the quiet bit, the 386 back end yields the one canonical
+NaN): a finite float32 (normal, subnormal, ±0) becomes the float64 with the same sign and exactly the
+same magnitude (`f32Scaled`/`f64Scaled`: |value|·2^1074 as a natural number); ±Inf stays ±Inf with its
+sign; a NaN stays a NaN -/
+theorem C07_widen_exact (canon : Bool) (b : BitVec 32) :
+    (∀ v, f32Scaled b = some v → f64Scaled (widenOn canon b) = some v) ∧
     (b.toNat / 2 ^ 23 % 256 = 255 →
-      (widen b).toNat / 2 ^ 63 = b.toNat / 2 ^ 31 ∧ (widen b).toNat / 2 ^ 52 % 2048 = 2047 ∧
-      ((widen b).toNat % 2 ^ 52 = 0 ↔ b.toNat % 2 ^ 23 = 0)) :=
-  ⟨widen_exact b, widen_nonfinite b⟩
+      (widenOn canon b).toNat / 2 ^ 52 % 2048 = 2047 ∧
+      ((widenOn canon b).toNat % 2 ^ 52 = 0 ↔ b.toNat % 2 ^ 23 = 0) ∧
+      (b.toNat % 2 ^ 23 = 0 → (widenOn canon b).toNat / 2 ^ 63 = b.toNat / 2 ^ 31)) :=
+  ⟨widenOn_exact canon b, widenOn_nonfinite canon b⟩
 
 /-- text, bytes and the absent body read back verbatim -/
 theorem C07_readback_text (P : Params) (s : Bytes) :
-    (setBody (.str s) = .ok (.str s) ∧ bodyToString P (.str s) = .ok (.lit s)) ∧
-    (setBody (.bytes s) = .ok (.bytes s) ∧ bodyToBytes P (.bytes s) = .ok s) ∧
-    setBody .nil = .ok .nil :=
+    (setBody P (.str s) = .ok (.str s) ∧ bodyToString P (.str s) = .ok (.lit s)) ∧
+    (setBody P (.bytes s) = .ok (.bytes s) ∧ bodyToBytes P (.bytes s) = .ok s) ∧
+    setBody P .nil = .ok .nil :=
   ⟨⟨rfl, rfl⟩, ⟨rfl, rfl⟩, rfl⟩
 
 /-- `SetBody` accepts every supported value and leaves a normal body -/
-theorem C07_setbody_total (v : GoVal) (hs : Supported v) : ∃ b, setBody v = .ok b ∧ Normal b := by
-  obtain ⟨b, hb⟩ := setBody_total hs
+theorem C07_setbody_total (P : Params) (v : GoVal) (hs : Supported v) : ∃ b, setBody P v = .ok b ∧ Normal b := by
+  obtain ⟨b, hb⟩ := setBody_total P hs
   exact ⟨b, hb, setBody_normal hs hb⟩
 
 /-! ### every body has a text form -/
@@ -408,19 +442,27 @@ example : ∀ er, (Codec.writePacket C01.params C01.params.v1 demoGoEnv C01.demo
       (C01.demo_fits _ (Or.inr rfl)) [9, 9] _ (by simp [Codec.flat])).1).2.2
 
 /-- test: a uint64 above MaxInt64 reads back as the same 64 bits -/
-example : ∃ r, setBody (.u64 (BitVec.ofNat 64 (2^64 - 1))) = .ok (.i64 r) ∧ r = BitVec.ofInt 64 (2^64 - 1) :=
+example : ∃ r, setBody params (.u64 (BitVec.ofNat 64 (2^64 - 1))) = .ok (.i64 r) ∧ r = BitVec.ofInt 64 (2^64 - 1) :=
   let ⟨r, h1, _, h3, _⟩ := C07_readback_int params (.u64 (BitVec.ofNat 64 (2^64 - 1))) (2^64 - 1) (by decide)
   ⟨r, h1, h3⟩
 
 /-- test: an int8 -5 reads back as -5 -/
-example : ∃ r : BitVec 64, setBody (.i8 (BitVec.ofInt 8 (-5))) = .ok (.i64 r) ∧ r.toInt = -5 :=
+example : ∃ r : BitVec 64, setBody params (.i8 (BitVec.ofInt 8 (-5))) = .ok (.i64 r) ∧ r.toInt = -5 :=
   let ⟨r, h1, _, _, h4⟩ := C07_readback_int params (.i8 (BitVec.ofInt 8 (-5))) (-5) (by decide)
   ⟨r, h1, h4 (by decide)⟩
 
 /-- test: 1.0f widens to 1.0, the smallest subnormal 2^-149 to the normal float64 0x36a0000000000000,
-and a signalling NaN with payload to the quiet NaN with the same payload -/
+and a signalling NaN with payload to the quiet NaN with the same payload (amd64) or to the canonical
+NaN (386), which leaves finite values alone -/
 example : widen 0x3f800000 = 0x3ff0000000000000 ∧ widen 1 = 0x36a0000000000000 ∧
-    widen 0xff800001 = 0xfff8000020000000 := by decide
+    widenOn false 0xff800001 = 0xfff8000020000000 ∧ widenOn true 0xff800001 = 0x7ff8000000000000 ∧
+    widenOn true 1 = 0x36a0000000000000 := by decide
+
+/-- test: on a 32-bit build MinInt32 is an `int` of the model and MaxInt32+1 is not; it reads back as -2^31 -/
+example : (GoVal.int (BitVec.ofInt 64 (-2147483648))).inWord 32 = true ∧
+    (GoVal.int (BitVec.ofInt 64 2147483648)).inWord 32 = false ∧
+    setBody (archParams 32 true) (.int (BitVec.ofInt 64 (-2147483648))) = .ok (.i64 (BitVec.ofInt 64 (-2147483648))) := by decide
+
 
 /-- test: the hypothesis of `C07_widen_exact` is met by a subnormal (scaled magnitude 3·2^925) -/
 example : ∃ v, f32Scaled 0x80000003 = some v ∧ v.1 = true := ⟨_, rfl, by decide⟩
